@@ -197,7 +197,14 @@ struct BigInt {
 
     template <typename N_Number_T>
     inline void operator&=(const N_Number_T number) noexcept {
+        SizeT32 index = index_;
         doOperation<BigIntOperation::And>(number);
+
+        // The words above the width of number are masked out.
+        while (index > index_) {
+            storage_[index] = 0;
+            --index;
+        }
     }
 
     template <typename N_Number_T>
